@@ -22,7 +22,7 @@ def invoice_descs():
     out.append({"pre": 0, "amount": 1000000, "signer": 1, "corrupt": 3})   # truncated string
     return out
 
-def requests_for(r, bolt11, tier):
+def requests_for(r, bolt11, tier, inv_pre=0):
     """{amount field absent / 0-9 bytes / equal / off by one} x {flag via cfg} x {forward_msat, short_channel_id} x hash equal/different"""
     reqs = []
     amts = [None, b"", tu64(1000000), tu64(1000001), tu64(999999), b"\x00" + tu64(1000000), bytes(8), bytes(9), b"\xff" * 8, b"\xff" * 9, bytes([1] * 3)]
@@ -33,6 +33,9 @@ def requests_for(r, bolt11, tier):
             for fwd, scid in ((5, None), (None, None), (5, "1x2x3")):
                 if tier != "thorough" and (fwd, scid) != (5, None) and a not in (None, tu64(1000000)): continue
                 reqs.append(request(payload(bolt11, amount_tlv=a), phash(h), 5, 100, 50, 1, forward=fwd, total=None, scid=scid))
+    # HTLC hashes that differ from the invoice's hash but would pass a weak comparison
+    for nh in near_hashes(phash(inv_pre)):
+        reqs.append(request(payload(bolt11, amount_tlv=None), nh, 5, 100, 50, 1, forward=5, total=None, scid=None))
     return reqs
 
 def odd_requests(bolt11):
@@ -76,9 +79,9 @@ def gen(tier, seed, binary):
     for d, inv in zip(descs, invs):
         for allow in (True, False):
             cfg = {"local": 0, "allow_self": allow, "policy": [1, 2, 3]}
-            rq = requests_for(r, inv["bolt11"], tier)
+            rq = requests_for(r, inv["bolt11"], tier, d["pre"])
             if tier != "thorough" and allow and d.get("hints"):
-                rq = rq[:4]
+                rq = rq[:4] + rq[-3:]
             for q in rq:
                 cases.append({"cfg": cfg, "req": q, "inv": inv, "desc": d})
     good = invs[0]
@@ -111,7 +114,7 @@ def run_classify(prop, tier, seed, extra=None):
     o = Outcome(prop, tier, seed)
     num = int(prop[1:])
     o.rule = ("cross product {invoice amount present/absent} x {signature valid / corrupted / explicit payee not matching the signature / explicit payee matching} x "
-              "{7 route-hint shapes with the local node as last / middle / absent hop} x {invoice hash equal / different from the HTLC's} x {amount field absent, 0-9 bytes, agreeing, off by one} x "
+              "{7 route-hint shapes with the local node as last / middle / absent hop} x {invoice hash equal / different from the HTLC's / near misses (bit flips that cancel under XOR, exchanged bytes, reversed, rotated, complement)} x {amount field absent, 0-9 bytes, agreeing, off by one} x "
               "{self-route-hint flag} x {forward_msat / short_channel_id present or not}, all invoices built and parsed with the plugin's own lightning-invoice crate, plus malformed payload / "
               "metadata byte strings. Non-trivial: the model classifies the request as trampoline, fail, or continue-with-rewrite (shape 2-4); distinct = distinct (invoice, request, flag)")
     o.assumptions = ["BOLT11 parsing, signature check and key recovery are the oracle (lightning-invoice 0.31 / secp256k1 0.27, trusted)",
